@@ -1,12 +1,23 @@
 import SupervisorModel.Model.LogRead
+import SupervisorModel.Model.TailF
+import SupervisorModel.Model.RpcLog
+import SupervisorModel.Lemmas.Chunked
 /-
-  C16 — log retrieval returns exactly the requested bytes (offset arithmetic part).
-  Property theorems only.  The definitions unfolded here (`Sv.Gen.LogRead.*`) are regenerated
-  from /repo on every run.
+  C16 — log retrieval returns exactly the requested bytes.
+  Property theorems only.  The definitions unfolded here (`Sv.Gen.LogRead.*`, `Sv.Gen.TailF.*`,
+  `Sv.Gen.Chunked.*`, `Sv.Gen.Rpc.*`) are regenerated from /repo on every run.
+
+    offset arithmetic        readFile_spec, readFile_window, tailFile_spec
+    RPC layer                readLog_no_file, readLog_bad_arguments, readLog_window, tailProcessLog_spec,
+                             log_rpc_never_raises (F7)
+    /logtail producer        tailf_appends, tailf_stream, tailf_restart_rotated, tailf_restart_truncated
+    chunked stream           chunk_encode_total (F8), chunk_roundtrip, decoder_fragmentation_invariant
 -/
 set_option linter.unusedSimpArgs false
 namespace Sv.Props.C16
-open Sv Sv.LogRead Sv.Gen.LogRead
+open Sv Sv.LogRead Sv.Gen.LogRead Sv.TailF Sv.Gen.TailF Sv.RpcLog Sv.Gen.Rpc Sv.Chunked Sv.Gen.Chunked
+
+/-! ## offset arithmetic (options.readFile / options.tailFile) -/
 
 /-- the last `n` bytes of `f` (all of `f` when `n ≥ |f|`, nothing when `n ≤ 0`) -/
 def lastN (n : Int) (f : Bytes) : Bytes := f.drop (f.length - n.toNat)
@@ -75,5 +86,326 @@ example : readFile [1,2,3,4,5] (-2) 1 = .error .badArguments := by decide
 example : readFile [1,2,3,4,5] 2 (-1) = .error .badArguments := by decide
 example : tailFile [1,2,3,4,5] 0 3 = ⟨[3,4,5], 5, true⟩ := by decide
 example : tailFile [1,2,3,4,5] 7 3 = ⟨[], 5, false⟩ := by decide
+
+
+/-! ## the XML-RPC layer (rpcinterface.py) -/
+
+/-- the answer is the fault whose code the `Faults` table gives to `name` -/
+def IsFault {α : Type} (a : Ans α) (name : String) : Prop := ∃ c, faultCode name = some c ∧ a = .fault c
+
+theorem update_passes {α : Type} (mood : Int) (h : ¬ mood < moodRunning) : (update mood : Option (Ans α)) = none := by
+  simp [update, update_g0, h]
+
+theorem update_raises {α : Type} (mood : Int) (h : mood < moodRunning) :
+    ∃ c, faultCode "SHUTDOWN_STATE" = some c ∧ (update mood : Option (Ans α)) = some (.fault c) := by
+  refine ⟨6, by decide, ?_⟩
+  simp [update, update_g0, h, updateRaises, raiseFault, faultCode, faults, List.lookup]
+
+/-- NO_FILE when there is no log -/
+theorem readLog_no_file (dec : Decoders) (mood : Int) (hm : ¬ mood < moodRunning) (lf : LogFile)
+    (hl : ∀ f, lf ≠ .present f) (o l : Int) :
+    IsFault (readLog dec mood lf o l) "NO_FILE" ∧ IsFault (readProcessLog dec mood true lf o l) "NO_FILE" := by
+  refine ⟨⟨20, by decide, ?_⟩, ⟨20, by decide, ?_⟩⟩ <;>
+  · cases lf with
+    | present f => exact absurd rfl (hl f)
+    | _ => simp [readLog, readProcessLog, update_passes mood hm, readCore, raiseFault, faultCode, faults, List.lookup]
+
+/-- BAD_ARGUMENTS for the refused sign combinations -/
+theorem readLog_bad_arguments (dec : Decoders) (mood : Int) (hm : ¬ mood < moodRunning) (f : Bytes) (o l : Int)
+    (h : (o < 0 ∧ l ≠ 0) ∨ (0 ≤ o ∧ l < 0)) :
+    IsFault (readLog dec mood (.present f) o l) "BAD_ARGUMENTS" ∧
+    IsFault (readProcessLog dec mood true (.present f) o l) "BAD_ARGUMENTS" := by
+  have hr : readFile f o l = .error .badArguments := by
+    rw [readFile_spec]
+    rcases h with ⟨h1, h2⟩ | ⟨h1, h2⟩
+    · simp [h1, h2]
+    · have : ¬ o < 0 := by omega
+      simp [this, h2]
+  refine ⟨⟨3, by decide, ?_⟩, ⟨3, by decide, ?_⟩⟩ <;>
+    simp [readLog, readProcessLog, update_passes mood hm, readCore, hr, readFileBadArgs, raiseFault, faultCode, faults,
+      List.lookup]
+
+/-- otherwise the text conversion of exactly the window `readFile` selects (see `readFile_spec`) -/
+theorem readLog_window (dec : Decoders) (mood : Int) (hm : ¬ mood < moodRunning) (f d : Bytes) (o l : Int)
+    (h : readFile f o l = .ok d) :
+    readLog dec mood (.present f) o l = .ok (dec.lossy d) ∧
+    readProcessLog dec mood true (.present f) o l = .ok (dec.lossy d) := by
+  simp [readLog, readProcessLog, update_passes mood hm, readCore, h, decodeLog, readDecodeTolerant]
+
+/-- tailProcess*Log: the text conversion of tailFile's window, its offset and overflow flag
+    (see `tailFile_spec`); `['', 0, False]` when there is no log -/
+theorem tailProcessLog_spec (dec : Decoders) (mood : Int) (hm : ¬ mood < moodRunning) (lf : LogFile) (o l : Int) :
+    tailProcessLog dec mood true lf o l =
+      match lf with
+      | .present f => .ok ⟨dec.lossy (tailFile f o l).data, (tailFile f o l).offset, (tailFile f o l).overflow⟩
+      | _ => .ok ⟨[], 0, false⟩ := by
+  cases lf <;> simp [tailProcessLog, update_passes mood hm, decodeLog, tailDecodeTolerant]
+
+/-- **Whatever bytes the log contains and wherever the window cuts them, the call succeeds**:
+    for every decoder pair, mood, log file, content, offset and length the answer is a value or a
+    fault, never another exception (regression statement of F7; it depends on the generated flags
+    `readDecodeTolerant`/`tailDecodeTolerant` and on every fault name being in `Faults`). -/
+theorem log_rpc_never_raises (dec : Decoders) (mood : Int) (found : Bool) (lf : LogFile) (o l : Int) :
+    (∀ w, readLog dec mood lf o l ≠ .exc w) ∧ (∀ w, readProcessLog dec mood found lf o l ≠ .exc w) ∧
+    (∀ w, tailProcessLog dec mood found lf o l ≠ .exc w) := by
+  have hu : ∀ {α : Type}, (update mood : Option (Ans α)) = none ∨ ∃ c, (update mood : Option (Ans α)) = some (.fault c) := by
+    intro α
+    by_cases h : mood < moodRunning
+    · obtain ⟨c, _, hc⟩ := update_raises (α := α) mood h; exact Or.inr ⟨c, hc⟩
+    · exact Or.inl (update_passes mood h)
+  have hcore : ∀ w, readCore dec lf o l ≠ .exc w := by
+    intro w
+    cases lf with
+    | present f =>
+      simp only [readCore]
+      cases hr : readFile f o l with
+      | ok d => simp [decodeLog, readDecodeTolerant]
+      | error e => cases e <;> simp [readFileBadArgs, readFileFailed, raiseFault, faultCode, faults, List.lookup]
+    | _ => simp [readCore, raiseFault, faultCode, faults, List.lookup]
+  refine ⟨?_, ?_, ?_⟩
+  · intro w
+    rcases hu (α := Bytes) with h | ⟨c, h⟩ <;> simp [readLog, h, hcore]
+  · intro w
+    rcases hu (α := Bytes) with h | ⟨c, h⟩
+    · cases found <;> simp [readProcessLog, h, hcore, raiseFault, faultCode, faults, List.lookup]
+    · simp [readProcessLog, h]
+  · intro w
+    rcases hu (α := TailAns) with h | ⟨c, h⟩
+    · cases found
+      · simp [tailProcessLog, h, raiseFault, faultCode, faults, List.lookup]
+      · cases lf <;> simp [tailProcessLog, h, decodeLog, tailDecodeTolerant]
+    · simp [tailProcessLog, h]
+
+-- non-vacuity: a window cutting "é" (c3 a9) and a binary log
+example : readLog pyDecoders 1 (.present [0x61, 0xc3, 0xa9, 0x62]) 0 2 = .ok [0x61, 0xEF, 0xBF, 0xBD] := by decide
+example : readLog pyDecoders 1 (.present [0xff, 0xfe, 0x00]) 0 0 = .ok [0xEF, 0xBF, 0xBD, 0xEF, 0xBF, 0xBD, 0x00] := by decide
+example : readLog pyDecoders 1 .missing 0 0 = .fault 20 := by decide
+example : readLog pyDecoders 0 .missing 0 0 = .fault 6 := by decide
+example : tailProcessLog pyDecoders 1 true (.present [0x61, 0xc3, 0xa9]) 0 1 = .ok ⟨[0xEF, 0xBF, 0xBD], 3, true⟩ := by decide
+
+/-! ## tail_f_producer (/logtail, /mainlogtail) -/
+
+/-- fixed inode (or the path momentarily unlinked), append-only growth -/
+def Appends (ino : Int) : Bytes → List Obs → Prop
+  | _, [] => True
+  | c, o :: rest => (o.pathIno = none ∨ o.pathIno = some ino) ∧ c <+: o.content ∧ Appends ino o.content rest
+
+def lastContent : Bytes → List Obs → Bytes
+  | c, [] => c
+  | _, o :: rest => lastContent o.content rest
+
+theorem appends_prefix (ino : Int) (c : Bytes) (obs : List Obs) (h : Appends ino c obs) :
+    c <+: lastContent c obs := by
+  induction obs generalizing c with
+  | nil => exact List.prefix_refl _
+  | cons o rest ih =>
+    obtain ⟨_, hp, hr⟩ := h
+    exact List.IsPrefix.trans hp (ih _ hr)
+
+theorem follow_same (t : TF) (o : Obs) (h : o.pathIno = none ∨ o.pathIno = some t.ino) : follow t o = t := by
+  rcases h with h | h <;> simp [follow, h, tfFollow_g0]
+
+/-- one `more()` on the same file that has only grown: exactly the new bytes, or NOT_DONE_YET -/
+theorem more_append (t : TF) (o : Obs) (h : o.pathIno = none ∨ o.pathIno = some t.ino)
+    (h0 : 0 ≤ t.sz) (h1 : t.sz ≤ o.content.length) :
+    more t o = ({ t with sz := o.content.length },
+                if t.sz < o.content.length then .data (o.content.drop t.sz.toNat) else .notDone) := by
+  simp only [more, follow_same t o h, tfMore_g0, tfMore_g1, tfMore_a3, tfMore_a6, tfMore_c0_0, tfMore_c0_1,
+    tfMore_c1_0, seekRead, ilt_iff]
+  have hn : ¬ ((o.content.length : Int) - t.sz < 0) := by omega
+  simp only [hn, if_false]
+  by_cases hg : (0 : Int) < o.content.length - t.sz
+  · have : t.sz < o.content.length := by omega
+    simp only [hg, this, if_true]
+    congr 2
+    have e : ((o.content.length : Int) + -(o.content.length - t.sz)) = t.sz := by omega
+    simp only [beq_self_eq_true, if_true, e]
+    apply List.take_of_length_le
+    simp only [List.length_drop]; omega
+  · have : ¬ t.sz < o.content.length := by omega
+    simp only [hg, this, if_false]
+    cases t; simp_all; omega
+
+theorem tailf_appends_aux (t : TF) (c : Bytes) (o : Obs) (obs : List Obs)
+    (h0 : 0 ≤ t.sz) (h1 : t.sz ≤ c.length) (ha : Appends t.ino c (o :: obs)) :
+    outBytes (run t (o :: obs)) = (lastContent c (o :: obs)).drop t.sz.toNat
+    ∧ hasMarker (run t (o :: obs)) = false
+    ∧ finalState t (o :: obs) = { t with sz := (lastContent c (o :: obs)).length } := by
+  induction obs generalizing t c o with
+  | nil =>
+    obtain ⟨hi, hp, _⟩ := ha
+    have hl : c.length ≤ o.content.length := hp.length_le
+    have hm := more_append t o hi h0 (by omega)
+    simp only [run, finalState, lastContent, hm]
+    by_cases hg : t.sz < o.content.length
+    · simp [hg, outBytes, hasMarker]
+    · simp only [hg, if_false, outBytes, hasMarker, true_and, and_true]
+      symm; apply List.drop_of_length_le; omega
+  | cons o' rest ih =>
+    obtain ⟨hi, hp, ha'⟩ := ha
+    have hl : c.length ≤ o.content.length := hp.length_le
+    have hm := more_append t o hi h0 (by omega)
+    have ih' := ih { t with sz := o.content.length } o.content o' (by simp) (by simp) ha'
+    have hpre : o.content <+: lastContent o.content (o' :: rest) := appends_prefix t.ino _ _ ha'
+    obtain ⟨x, hx⟩ := hpre
+    rw [run, finalState, hm]
+    simp only [lastContent] at ih' hx ⊢
+    obtain ⟨ih1, ih2, ih3⟩ := ih'
+    refine ⟨?_, ?_, ?_⟩
+    · have hd : (lastContent o'.content rest).drop t.sz.toNat = o.content.drop t.sz.toNat ++ x := by
+        rw [← hx, List.drop_append_of_le_length (by omega)]
+      have hd2 : (lastContent o'.content rest).drop o.content.length = x := by
+        rw [← hx]; simp
+      simp only [Int.toNat_natCast] at ih1
+      by_cases hg : t.sz < o.content.length
+      · simp only [hg, if_true, outBytes, ih1, hd, hd2]
+      · simp only [hg, if_false, outBytes, ih1, hd, hd2]
+        have : o.content.drop t.sz.toNat = [] := by apply List.drop_of_length_le; omega
+        simp [this]
+    · by_cases hg : t.sz < o.content.length <;> simp only [hg, if_true, if_false, hasMarker, ih2]
+    · simpa using ih3
+
+
+/-- **tailf_appends.**  While the log file stays the same file (fixed inode, or the path briefly
+    unlinked) and only grows, the concatenation of everything `more()` returns over any number of
+    polls is exactly the file from the producer's offset to its current end: every appended
+    byte, in order, none twice; no truncation marker is emitted. -/
+theorem tailf_appends (t : TF) (c : Bytes) (o : Obs) (obs : List Obs)
+    (h0 : 0 ≤ t.sz) (h1 : t.sz ≤ c.length) (ha : Appends t.ino c (o :: obs)) :
+    outBytes (run t (o :: obs)) = (lastContent c (o :: obs)).drop t.sz.toNat
+    ∧ hasMarker (run t (o :: obs)) = false :=
+  ⟨(tailf_appends_aux t c o obs h0 h1 ha).1, (tailf_appends_aux t c o obs h0 h1 ha).2.1⟩
+
+/-- the producer's offset after construction: the file is entered `head` bytes before its end -/
+theorem tailf_init (ino : Int) (c : Bytes) (head : Int) :
+    (init ino c head).ino = ino ∧ (init ino c head).sz = max 0 ((c.length : Int) - head) := by
+  simp only [init, tfInit_g0, tfInit_a4, tfOpen_a2, ile_iff]
+  split <;> simp <;> omega
+
+/-- **initial tail + appended bytes**: a fresh producer delivers the last `min head size` bytes of
+    the log as it was when the stream was opened, followed by exactly the bytes appended since. -/
+theorem tailf_stream (ino : Int) (c : Bytes) (head : Int) (hh : 0 ≤ head) (o : Obs) (obs : List Obs)
+    (ha : Appends ino c (o :: obs)) :
+    ∃ added, lastContent c (o :: obs) = c ++ added ∧
+      outBytes (run (init ino c head) (o :: obs)) = lastN head c ++ added := by
+  obtain ⟨hi, hs⟩ := tailf_init ino c head
+  obtain ⟨x, hx⟩ := appends_prefix ino c (o :: obs) ha
+  refine ⟨x, hx.symm, ?_⟩
+  have := (tailf_appends (init ino c head) c o obs (by omega) (by omega) (by rw [hi]; exact ha)).1
+  rw [this, ← hx, hs, List.drop_append_of_le_length (by omega)]
+  congr 1
+  unfold lastN
+  congr 1
+  omega
+
+/-- **tailf_restart (rotation).**  When the path names another inode, this very `more()` reopens
+    and delivers the new file from its first byte. -/
+theorem tailf_restart_rotated (t : TF) (o : Obs) (i : Int) (hi : o.pathIno = some i) (hne : i ≠ t.ino) :
+    more t o = ({ ino := i, sz := o.content.length },
+                if o.content = [] then .notDone else .data o.content) := by
+  have hne' : (t.ino != i) = true := by simp [bne_iff_ne]; exact fun h => hne h.symm
+  simp only [more, follow, hi, tfFollow_g0, hne', if_true, tfOpen_a2, tfMore_g0, tfMore_g1, tfMore_a3, tfMore_a6,
+    tfMore_c0_0, tfMore_c0_1, tfMore_c1_0, seekRead, ilt_iff]
+  have hn : ¬ ((o.content.length : Int) - 0 < 0) := by omega
+  simp only [hn, if_false]
+  by_cases he : o.content = []
+  · simp [he]
+  · have hpos : 0 < o.content.length := List.length_pos_iff.mpr he
+    have hg : (0 : Int) < (o.content.length : Int) - 0 := by omega
+    simp only [hg, he, if_true, if_false]
+    congr 2
+    have e : ((o.content.length : Int) + -((o.content.length : Int) - 0)).toNat = 0 := by omega
+    simp only [beq_self_eq_true, if_true, e]; simp
+
+/-- **tailf_restart (cleared / truncated).**  When the open file is shorter than the producer's
+    offset, `more()` answers the truncation marker and rewinds to offset 0, so that (by
+    `tailf_appends` with `sz = 0`) everything delivered afterwards is the new content from its
+    first byte. -/
+theorem tailf_restart_truncated (t : TF) (o : Obs) (hi : o.pathIno = none ∨ o.pathIno = some t.ino)
+    (hs : (o.content.length : Int) < t.sz) :
+    ∃ m, more t o = ({ t with sz := 0 }, .marker m) ∧
+      ∀ o' obs, Appends t.ino o.content (o' :: obs) →
+        outBytes (run (more t o).1 (o' :: obs)) = lastContent o.content (o' :: obs) := by
+  have hm : more t o = ({ t with sz := 0 }, .marker (tfMore_a4 t.sz o.content.length)) := by
+    simp only [more, follow_same t o hi, tfMore_g0, tfMore_a3, ilt_iff]
+    have : (o.content.length : Int) - t.sz < 0 := by omega
+    simp [this]
+  refine ⟨_, hm, ?_⟩
+  intro o' obs ha
+  rw [hm]
+  have := (tailf_appends { t with sz := 0 } o.content o' obs (by simp) (by simp) ha).1
+  simpa using this
+
+-- non-vacuity
+example : Appends 7 [1,2] [⟨some 7, [1,2,3]⟩, ⟨none, [1,2,3]⟩, ⟨some 7, [1,2,3,4,5]⟩] := by
+  simp [Appends]
+example : run (init 7 [1,2,3] 2) [⟨some 7, [1,2,3]⟩, ⟨some 7, [1,2,3,4]⟩, ⟨some 7, [1,2,3,4]⟩, ⟨some 7, [9]⟩, ⟨some 7, [9,8]⟩, ⟨some 8, [5,6]⟩]
+    = [.data [2,3], .data [4], .notDone, .marker (tfMore_a4 0 0), .data [9,8], .data [5,6]] := by decide
+/-- outside the property (DESIGN C16): a file cleared and regrown past the old offset between two
+    polls is indistinguishable from an append -/
+example : run ⟨7, 3⟩ [⟨some 7, [9,9,9,9]⟩] = [.data [9]] := by decide
+
+
+/-! ## the chunked stream: encoder, bundled client, fragmentation -/
+
+/-- the producer never fails on text from the wrapped producer (the truncation marker is a `str`):
+    regression statement of F8, over the generated flag `encConvertsText` -/
+theorem chunk_encode_total (e : Enc) (it : Item) : (encMore e it).2 ≠ .excTypeError := by
+  cases it <;> simp [encMore, encChunk, encConvertsText] <;> (repeat' split) <;> simp
+
+/-- what `more()` answers for a non-empty piece of data, bytes or text alike -/
+theorem chunk_encode_data (b : Bytes) (hb : b ≠ []) :
+    encMore {} (.bytes b) = ({}, .out (encodeChunk b)) ∧ encMore {} (.text b) = ({}, .out (encodeChunk b)) := by
+  have : b.isEmpty = false := by simpa using hb
+  simp [encMore, encChunk, encMore_g2, this, encConvertsText]
+
+/-- **decoder_fragmentation_invariant.**  Whatever way the byte stream is cut into segments
+    (`recv` results), the bundled client ends in the state of the byte-at-a-time automaton run
+    over the concatenation: same `feed` calls in the same order, same done/error status.  In
+    particular two fragmentations of one stream are indistinguishable. -/
+theorem decoder_fragmentation_invariant (segs : List Bytes) (hne : segs ≠ []) :
+    (feedAll initDec segs).core = (refDecode segs.flatten).core := by
+  have := feedAll_core segs hne initDec
+  simpa [refDecode, Chunked.abs, initDec] using this
+
+theorem decoder_fragmentation_invariant' (segs segs' : List Bytes) (hne : segs ≠ []) (hne' : segs' ≠ [])
+    (h : segs.flatten = segs'.flatten) : (feedAll initDec segs).core = (feedAll initDec segs').core := by
+  rw [decoder_fragmentation_invariant segs hne, decoder_fragmentation_invariant segs' hne', h]
+
+/-- **chunk_roundtrip.**  For every list of non-empty data pieces, under every fragmentation of
+    the encoded stream, the client feeds its listener exactly those pieces, in order (so the
+    reassembled bytes are `cs.flatten`), raises nothing and does not report the end. -/
+theorem chunk_roundtrip (cs : List Bytes) (hcs : ∀ d ∈ cs, d ≠ []) (segs : List Bytes) (hne : segs ≠ [])
+    (h : segs.flatten = encode cs) :
+    (feedAll initDec segs).core.fed = cs ∧ (feedAll initDec segs).core.err = none ∧
+    (feedAll initDec segs).core.done = false := by
+  rw [decoder_fragmentation_invariant segs hne, h]
+  have := step_chunks cs {} rfl rfl hcs
+  simp only [refDecode, abs0, initDec] at this ⊢
+  rw [this]
+  simp
+
+/-- with the last-chunk appended the client moves to the trailer part, all data delivered.
+    (It never calls `listener.done()`: `HTTPHandler.trailer` compares the collected line — from
+    which asynchat has already stripped the terminator — with CRLF.  The /logtail stream never
+    ends, so this is outside the property; noted in the report.) -/
+theorem chunk_roundtrip_closed (cs : List Bytes) (hcs : ∀ d ∈ cs, d ≠ []) (segs : List Bytes) (hne : segs ≠ [])
+    (h : segs.flatten = encode cs ++ lastChunk) :
+    (feedAll initDec segs).core = { part := .trailer, fed := cs, done := false, err := none } := by
+  rw [decoder_fragmentation_invariant segs hne, h]
+  have h1 := step_chunks cs {} rfl rfl hcs
+  simp only [refDecode, abs0, initDec, List.foldl_append] at h1 ⊢
+  rw [h1, step_last _ rfl rfl]
+  simp
+
+/-- the terminator the client searches for is the one the model's search is written for -/
+theorem client_crlf : clientCRLF = [13, 10] := by decide
+
+-- non-vacuity
+example : encode [[104, 105], [33]] = [50, 13, 10, 104, 105, 13, 10, 49, 13, 10, 33, 13, 10] := by decide
+example : (feedAll initDec [[50, 13], [10, 104], [105, 13, 10, 49, 13, 10, 33, 13], [10]]).core.fed = [[104, 105], [33]] := by
+  decide
+example : (encMore {} (.text [61, 61, 62])).2 = .out [51, 13, 10, 61, 61, 62, 13, 10] := by decide
+example : (encMore {} (.bytes [])).2 = .out [48, 13, 10, 13, 10] := by decide
 
 end Sv.Props.C16
